@@ -269,14 +269,11 @@ def explore(ctx):
         except Exception as e:
             ctx.oracle_failure({'case': c, 'kind': kind}, ['cannot emit the model case: %r' % (e,)])
     # evaluate the model in batches and compare numerically
-    B = 60
-    for k0 in range(0, len(terms), B):
-        chunk = terms[k0:k0 + B]
-        val = common.coq_dump('c18_plot_%d' % (k0 // B), HEADER, '[' + ';\n'.join(chunk) + ']', timeout=600)
-        if not isinstance(val, list) or len(val) != len(chunk):
-            ctx.errors.append('Coq evaluation of the plot model failed: %r' % (str(val)[:400],))
-            continue
-        for (info, pos_obs, lines_obs, sel_obs), out in zip(expect[k0:k0 + B], val):
+    vals, errs = common.coq_dump_many('c18_plot', HEADER, terms, batch=30)
+    ctx.errors.extend(errs)
+    if True:
+        expect_ = [(e, v) for e, v in zip(expect, vals) if v is not None]
+        for (info, pos_obs, lines_obs, sel_obs), out in expect_:
             mpos, (mlines, msel) = out
             mp = sorted((int(i), float(q(v))) for i, v in mpos)
             ok = len(mp) == len(pos_obs) and all(a[0] == b[0] and abs(a[1] - b[1]) <= 1e-9 for a, b in zip(mp, pos_obs))
